@@ -2,6 +2,7 @@
 # Developer tool: run every registered quick check under other VERIF_SEED values (evidence goes to a temporary directory) and print
 # one line per check; any VIOLATION or non-zero exit on the unchanged tree is a defect of the check or of y0 and must be triaged.
 cd "$(dirname "$0")/.."
+[ -x .venv/bin/python ] || ./setup.sh >/dev/null 2>&1
 for s in "$@"; do
   for id in $(.venv/bin/python -c "import json;print(' '.join(c['property_id'] for c in json.load(open('MANIFEST.json'))['checks']))"); do
     EV=$(mktemp -d /tmp/seedev_XXXXXX)
